@@ -73,20 +73,43 @@ pub struct Env {
     pub full_glue: bool,
     /// receiver sockets in use (only these are polled after an event)
     pub n_active: usize,
+    /// harness socket that sends an end-of-event sentinel to every receiver socket
+    sentinel: StdUdp,
+    sentinel_rx: StdUdp,
+    sentinel_addr: SocketAddr,
+    sentinel_no: u64,
+    pub sentinel_waits: u64,
     buf: Vec<u8>,
 }
 
 fn bind_rx(addr: SocketAddr) -> std::io::Result<StdUdp> {
+    // exclusive bind (no SO_REUSEADDR): two workers must never share a receiver port
     let s = socket2::Socket::new(socket2::Domain::IPV4, socket2::Type::DGRAM, Some(socket2::Protocol::UDP))?;
-    s.set_reuse_address(true)?;
     s.set_recv_buffer_size(4 << 20).ok();
     s.bind(&addr.into())?;
     s.set_nonblocking(true)?;
     Ok(s.into())
 }
 
+/// Receiver ports come from a process-wide counter below the ephemeral range,
+/// so that a closed receiver socket can always be re-bound on the same port.
+static NEXT_PORT: std::sync::atomic::AtomicU32 = std::sync::atomic::AtomicU32::new(0);
+
+fn fresh_rx() -> (StdUdp, SocketAddr) {
+    loop {
+        let k = NEXT_PORT.fetch_add(1, std::sync::atomic::Ordering::Relaxed);
+        let base = 12_000 + (std::process::id() % 97) * 200;
+        let port = (base + k % 19_000) % 20_000 + 10_000;
+        let addr = SocketAddr::new(IpAddr::V4(Ipv4Addr::LOCALHOST), port as u16);
+        if let Ok(s) = bind_rx(addr) {
+            return (s, addr);
+        }
+    }
+}
+
 impl Env {
     pub fn new() -> Self {
+        pin_this_thread();
         let rt = tokio::runtime::Builder::new_current_thread()
             .enable_io()
             .enable_time()
@@ -102,16 +125,15 @@ impl Env {
         let mut rx = Vec::new();
         let mut rx_addr = Vec::new();
         for _ in 0..MAX_LINKS {
-            // ephemeral port first, then re-bindable (SO_REUSEADDR) on the same port
-            let probe = StdUdp::bind("127.0.0.1:0").expect("bind rx");
-            let addr = probe.local_addr().unwrap();
-            drop(probe);
-            let s = bind_rx(addr).expect("bind rx fixed");
+            let (s, addr) = fresh_rx();
             rx.push(Some(s));
             rx_addr.push(addr);
         }
         let (packet_tx, packet_rx) = create_uplink_channel();
         let (instant_tx, instant_rx) = tokio::sync::mpsc::unbounded_channel();
+        let sentinel_rx_sock = StdUdp::bind("127.0.0.1:0").expect("bind sentinel rx");
+        sentinel_rx_sock.set_nonblocking(true).unwrap();
+        let sentinel_addr = sentinel_rx_sock.local_addr().unwrap();
         Env {
             rt,
             listener: Arc::new(listener),
@@ -130,6 +152,15 @@ impl Env {
             hub: SubscriptionHub::new(),
             full_glue: false,
             n_active: MAX_LINKS,
+            sentinel: {
+                let s = StdUdp::bind("127.0.0.1:0").expect("bind sentinel");
+                s.set_nonblocking(true).unwrap();
+                s
+            },
+            sentinel_rx: sentinel_rx_sock,
+            sentinel_addr,
+            sentinel_no: 0,
+            sentinel_waits: 0,
             buf: vec![0u8; 2048],
         }
     }
@@ -154,25 +185,99 @@ impl Env {
     }
 
     /// Everything the event put on the wire / relayed to the client.
+    ///
+    /// Loopback delivery normally completes inside the sending syscall, but
+    /// under load the kernel may defer it to ksoftirqd. The worker thread is
+    /// pinned to one CPU, so everything it sends goes through that CPU's
+    /// backlog in FIFO order: a sentinel datagram sent *after* the event to
+    /// each receiver socket is therefore delivered after everything the event
+    /// sent to that socket. Reading each socket up to its sentinel yields
+    /// exactly the event's datagrams, however long delivery was deferred.
     fn collect(&mut self, out: &mut Out) {
-        for i in 0..self.n_active.min(MAX_LINKS) {
-            if let Some(s) = &self.rx[i] {
-                loop {
-                    match s.recv_from(&mut self.buf) {
-                        Ok((n, _)) => out.wire.push((i, self.buf[..n].to_vec())),
-                        Err(_) => break,
+        self.sentinel_no += 1;
+        let mut tag = [0u8; 24];
+        tag[..8].copy_from_slice(b"\xffSENTNL\xff");
+        tag[8..16].copy_from_slice(&self.sentinel_no.to_be_bytes());
+        tag[16..24].copy_from_slice(&(std::process::id() as u64).to_be_bytes());
+        let n = self.n_active.min(MAX_LINKS);
+        for i in 0..n {
+            if self.rx[i].is_some() {
+                let _ = self.sentinel.send_to(&tag, self.rx_addr[i]);
+            }
+        }
+        let _ = self.sentinel.send_to(&tag, self.client_addr);
+        let deadline = std::time::Instant::now() + std::time::Duration::from_millis(2000);
+        for i in 0..n {
+            let Some(s) = &self.rx[i] else { continue };
+            loop {
+                match s.recv_from(&mut self.buf) {
+                    Ok((k, _)) => {
+                        if k == 24 && self.buf[..8] == tag[..8] {
+                            if self.buf[..24] == tag {
+                                break;
+                            }
+                            continue; // stale sentinel of an earlier event
+                        }
+                        if &self.buf[..k] == b"\xffPOKE\xff" {
+                            continue;
+                        }
+                        out.wire.push((i, self.buf[..k].to_vec()));
+                    }
+                    Err(_) => {
+                        self.sentinel_waits += 1;
+                        if std::time::Instant::now() > deadline {
+                            panic!("MACHINERY: end-of-event sentinel never arrived on receiver socket {i}");
+                        }
+                        std::thread::yield_now();
                     }
                 }
             }
         }
         loop {
             match self.client.recv_from(&mut self.buf) {
-                Ok((n, _)) => out.client.push(self.buf[..n].to_vec()),
-                Err(_) => break,
+                Ok((k, _)) => {
+                    if k == 24 && self.buf[..8] == tag[..8] {
+                        if self.buf[..24] == tag {
+                            break;
+                        }
+                        continue;
+                    }
+                    out.client.push(self.buf[..k].to_vec());
+                }
+                Err(_) => {
+                    self.sentinel_waits += 1;
+                    if std::time::Instant::now() > deadline {
+                        panic!("MACHINERY: end-of-event sentinel never arrived on the client socket");
+                    }
+                    std::thread::yield_now();
+                }
             }
         }
         while let Ok((_, p)) = self.instant_rx.try_recv() {
             out.instant.push(p.to_vec());
+        }
+    }
+
+    /// One sentinel round trip through this CPU's loopback backlog.
+    fn barrier(&mut self) {
+        self.sentinel_no += 1;
+        let mut tag = [0u8; 24];
+        tag[..8].copy_from_slice(b"\xffSENTNL\xff");
+        tag[8..16].copy_from_slice(&self.sentinel_no.to_be_bytes());
+        tag[16..24].copy_from_slice(&(std::process::id() as u64).to_be_bytes());
+        let _ = self.sentinel.send_to(&tag, self.sentinel_addr);
+        let deadline = std::time::Instant::now() + std::time::Duration::from_millis(2000);
+        loop {
+            match self.sentinel_rx.recv_from(&mut self.buf) {
+                Ok((k, _)) if k == 24 && self.buf[..24] == tag => break,
+                Ok(_) => continue,
+                Err(_) => {
+                    if std::time::Instant::now() > deadline {
+                        panic!("MACHINERY: barrier sentinel never arrived");
+                    }
+                    std::thread::yield_now();
+                }
+            }
         }
     }
 
@@ -186,6 +291,31 @@ impl Env {
 impl Default for Env {
     fn default() -> Self {
         Self::new()
+    }
+}
+
+static NEXT_CPU: std::sync::atomic::AtomicUsize = std::sync::atomic::AtomicUsize::new(0);
+
+/// Pin the calling worker thread to one CPU (see `Env::collect`).
+pub fn pin_this_thread() {
+    thread_local! { static PINNED: std::cell::Cell<bool> = const { std::cell::Cell::new(false) }; }
+    if PINNED.with(|p| p.replace(true)) {
+        return;
+    }
+    unsafe {
+        let mut allowed: libc::cpu_set_t = std::mem::zeroed();
+        if libc::sched_getaffinity(0, std::mem::size_of::<libc::cpu_set_t>(), &mut allowed) != 0 {
+            return;
+        }
+        let cpus: Vec<usize> = (0..libc::CPU_SETSIZE as usize).filter(|c| libc::CPU_ISSET(*c, &allowed)).collect();
+        if cpus.is_empty() {
+            return;
+        }
+        let k = NEXT_CPU.fetch_add(1, std::sync::atomic::Ordering::Relaxed);
+        let cpu = cpus[k % cpus.len()];
+        let mut set: libc::cpu_set_t = std::mem::zeroed();
+        libc::CPU_SET(cpu, &mut set);
+        libc::sched_setaffinity(0, std::mem::size_of::<libc::cpu_set_t>(), &set);
     }
 }
 
@@ -221,6 +351,13 @@ pub struct World {
     pub bind_fail: Vec<bool>,
     /// receiver host/port used by reloads (C19 worlds: single receiver)
     pub receiver: SocketAddr,
+    /// a receiver socket was closed at some point in this world's history
+    pub fault_seen: bool,
+    /// per link (by conn_id): a socket error (ICMP port unreachable) is pending on
+    /// its uplink socket. The kernel keeps this on the socket, which sibling
+    /// states share, so it is captured into the state after every event and
+    /// re-created on the socket before the next one.
+    pub pending_err: Vec<(u64, bool)>,
 }
 
 impl Clone for World {
@@ -268,6 +405,8 @@ impl Clone for World {
             rx_open: self.rx_open.clone(),
             bind_fail: self.bind_fail.clone(),
             receiver: self.receiver,
+            fault_seen: self.fault_seen,
+            pending_err: self.pending_err.clone(),
         }
     }
 }
@@ -295,6 +434,13 @@ impl World {
     pub fn cold_start(env: &mut Env, n: usize, config: DynamicConfig, now: u64) -> (World, Out) {
         set_now(now);
         env.kill_readers();
+        // a previous world of this worker may have left receiver sockets closed / bind faults armed
+        for i in 0..MAX_LINKS {
+            if env.rx[i].is_none() {
+                env.rx[i] = Some(bind_rx(env.rx_addr[i]).expect("re-bind receiver socket"));
+            }
+        }
+        env.binder.fail.lock().unwrap().clear();
         let mut out = Out::default();
         // discard anything left over on the sockets from a previous world
         env.n_active = MAX_LINKS;
@@ -335,6 +481,8 @@ impl World {
                 rx_open: vec![true; MAX_LINKS],
                 bind_fail: vec![false; MAX_LINKS],
                 receiver: env.rx_addr[0],
+                fault_seen: false,
+                pending_err: Vec::new(),
             }
         });
         env.collect(&mut out);
@@ -368,6 +516,54 @@ impl World {
         out
     }
 
+    /// Before an event: make the real sockets agree with the state (fault flags,
+    /// pending socket errors).
+    fn begin(&mut self, env: &mut Env) {
+        env.sync_faults(self);
+        if !self.fault_seen {
+            if self.rx_open.iter().take(env.n_active).any(|o| !*o) {
+                self.fault_seen = true;
+            } else {
+                return;
+            }
+        }
+        let mut poked = false;
+        for (id, pend) in self.pending_err.iter() {
+            if !*pend {
+                continue;
+            }
+            if let Some(io) = self.conn_io.get(id) {
+                // re-create the pending error: a poke into the (closed) receiver port
+                let _ = io.socket.get_ref().take_error();
+                let _ = io.socket.get_ref().send(b"\xffPOKE\xff");
+                poked = true;
+            }
+        }
+        if poked {
+            // round 1: the pokes are processed (ICMP generated); round 2: the ICMPs are delivered
+            env.barrier();
+            env.barrier();
+        }
+    }
+
+    /// After an event: capture pending socket errors into the state (and clear
+    /// them on the shared sockets).
+    fn end(&mut self, env: &mut Env) {
+        if !self.fault_seen {
+            return;
+        }
+        // the event's own datagrams were processed before collect() saw its sentinels;
+        // one more round delivers the ICMP errors they caused
+        env.barrier();
+        self.pending_err.clear();
+        for c in self.connections.iter() {
+            if let Some(io) = self.conn_io.get(&c.conn_id) {
+                let e = io.socket.get_ref().take_error().ok().flatten().is_some();
+                self.pending_err.push((c.conn_id, e));
+            }
+        }
+    }
+
     pub fn advance(&mut self, dt: u64) {
         self.now += dt;
     }
@@ -375,7 +571,7 @@ impl World {
     /// Arm 1: a datagram from the local SRT endpoint.
     pub fn arm_client(&mut self, env: &mut Env, pkt: &[u8]) -> Out {
         let mut out = Out::default();
-        env.sync_faults(self);
+        self.begin(env);
         set_now(self.now);
         let mut recv_buf = vec![0u8; srtla_protocol::MTU];
         let n = pkt.len().min(recv_buf.len());
@@ -411,6 +607,7 @@ impl World {
             .await;
         });
         env.collect(&mut out);
+        self.end(env);
         out
     }
 
@@ -420,7 +617,7 @@ impl World {
         if idx >= self.connections.len() {
             return out;
         }
-        env.sync_faults(self);
+        self.begin(env);
         set_now(self.now);
         let packet = UplinkPacket {
             conn_id: self.connections[idx].conn_id,
@@ -455,13 +652,14 @@ impl World {
             .await;
         });
         env.collect(&mut out);
+        self.end(env);
         out
     }
 
     /// Arm 3: the housekeeping tick (the caller advances the clock first).
     pub fn arm_housekeeping(&mut self, env: &mut Env) -> Out {
         let mut out = Out::default();
-        env.sync_faults(self);
+        self.begin(env);
         set_now(self.now);
         let classic = self.config.mode().is_classic();
         let full = env.full_glue;
@@ -539,17 +737,19 @@ impl World {
         });
         env.kill_readers();
         env.collect(&mut out);
+        self.end(env);
         out
     }
 
     /// Arm 4: the 15 ms flush tick.
     pub fn arm_flush(&mut self, env: &mut Env) -> Out {
         let mut out = Out::default();
-        env.sync_faults(self);
+        self.begin(env);
         set_now(self.now);
         env.rt
             .block_on(flush_all_batches(&mut self.connections, &self.conn_io));
         env.collect(&mut out);
+        self.end(env);
         out
     }
 
